@@ -89,6 +89,7 @@ type queue struct {
 	metaPageFct     page.Factory    // meta page factory
 	notEmpty        *sync.Cond      // not empty condition
 	rwMutex         *sync.RWMutex
+	putMutex        sync.Mutex   // serializes appends(allocate, copy and publish a message)
 	dirPath         string       // path for queue file
 	appendedSeq     atomic.Int64 // current written sequence
 	dataPageIndex   int64
@@ -192,6 +193,13 @@ func (q *queue) Put(data []byte) error {
 		// if message size > data page size, return err
 		return ErrExceedingMessageSizeLimit
 	}
+
+	// allocating the space, copying the data and publishing the sequence of a message is one
+	// critical section: sequences must follow the positions in the data pages, because the write
+	// position is restored from the last index entry when the queue is opened again and data pages
+	// are removed by the page of the acknowledged sequence.
+	q.putMutex.Lock()
+	defer q.putMutex.Unlock()
 
 	dataPageIndex, dataPage, offset, err := q.alloc(dataLength)
 	if err != nil {
